@@ -2,7 +2,7 @@
 """C08  Name resolution agrees with the compiler.
 
 prove:      coq/theories/Properties_C08.v  (VariableMap refines the frame-stack specification for every
-            operation sequence without redeclaration inside one frame; global map; fresh ids; Leave)
+            operation sequence; global map; fresh ids; Leave)
 correspond: (1) extracted model vs the real VariableMap class driven by scripts (hook a37a0ca,
             harness/vh_c08.cpp); (2) extracted model replayed on the operation traces the real
             setVarIdPass1 emits on corpus and generated programs (ids recorded by the code itself)
@@ -29,7 +29,7 @@ CORPUS_OPS = [
     [b"L", b"L", b"A0a", b"U00a", b"U01a", b"A1a", b"U01a"],
 ]
 
-# the one known defect class of the unchanged tree: leaveScope() replays the undo log forwards
+# first program: the defect repaired by /repo f35544d (leaveScope() replayed the undo log forwards)
 CORPUS_PROGRAMS = [
     ("for_body_redecl.c", "int i;\nvoid f(void) { for (int i = 0; i < 1; i++) { int i = 5; (void)i; } i = 2; }\nvoid g(void) { i = 1; }\n"),
     ("shadow_basic.c", "int x;\nint f(int x) { { int x = 1; x++; } return x; }\nint g(void) { return x; }\n"),
@@ -90,7 +90,8 @@ def analyse_program(run, model, path, cpp, use_clang, stats):
                                            "model": m[max(0, i - 6):i + 1], "code": exp[max(0, i - 6):i + 1]}))
             if not w[0]:
                 stats["redecl_traces"] += 1
-                # use sites where the code's answer differs from the lexical-scoping specification
+                # use sites where the code's answer differs from the lexical-scoping specification (none since f35544d:
+                # C08_vm_refines_scopes has no side condition any more; a hit means the class no longer is the model)
                 for (oi, line, col) in sites:
                     if oi < len(s) and ops[oi][1:3] == b"00" and exp[oi] != s[oi]:
                         redecl_sites.add((line, col))
@@ -216,7 +217,7 @@ def check(run, replay):
     for c, m, s, w in zip(sub, mo, so, wf):
         loc_same = all(a == b or (o[:3] == b"U01" and a == 0) for o, a, b in zip(c, m, s) if not (o[:1] in (b"U", b"F") and o[1:2] == b"1"))
         hyp["redecl_free=%d,local_lookups_%s" % (w[0], "agree" if loc_same else "differ")] += 1
-        if w[0] and not loc_same:
+        if not loc_same:
             run.violation("theorem-vs-extraction", "extracted model contradicts C08_vm_refines_scopes", {"ops": vlib.show(c), "vm": m, "sp": s}, found_input=False)
     run.extra["script_hypothesis_census"] = dict(hyp)
 
@@ -269,7 +270,7 @@ def check(run, replay):
         dd = pr[0][1] if pr else d
         if kind == "undo-log":
             key = "leaveScope-replays-undo-log-forwards"
-            what = ("a name declared twice inside one VariableMap frame (C: `for (int i..) { int i; }`) is restored to the first inner declaration when the frame is left: "
+            what = ("REGRESSION of /repo f35544d: a name declared twice inside one VariableMap frame (C: `for (int i..) { int i; }`) is restored to the first inner declaration when the frame is left: "
                     "the use of '%s' at %s is linked to the declaration at %s, clang binds it to %s" % (dd["name"], dd["site"], dd["cppcheck_declaration"], dd["clang_declarations"]))
         elif kind == "resolution":
             key = "resolution:" + hashlib.sha1(small.encode()).hexdigest()[:10]
